@@ -415,6 +415,15 @@ class AReport:
             dres = discharge(dob, timeout_s=20, ctx=ctx)
             for ob, r in zip(dob, dres):
                 print('  DEFDIAG %s %s %.1fs pc=%d' % (r['result'], ob.name[:140], r['secs'], len(ob.extra)), flush=True)
+        if getattr(self, 'definedness', False) and not expect_sat:
+            # every division performed since the previous batch (by the code under test and by the
+            # oracle alike): its divisor must be non-zero on the domain under its path condition
+            pos = getattr(ctx, '_div_pos', 0)
+            meta0 = next((dict(o.meta) for o in obls if o.meta and o.meta.get('check')), None)
+            if meta0 is not None:
+                meta0['use_model'] = True
+            obls = list(obls) + definedness(ctx, pos, meta=meta0)
+            ctx._div_pos = len(ctx.divs)
         if not expect_sat:
             obls = self.drop_vacuous(obls, ctx)
         res = discharge(obls, timeout_s=timeout_s, ctx=ctx)
